@@ -773,7 +773,19 @@ fn c06_impl(ix: &Index, only: Option<&dyn Fn(&MAtt) -> bool>) -> Vec<Viol> {
         for e in &copies {
             *seen_traces.entry((e.trace, e.unit)).or_insert(0) += 1;
         }
+        // two collection units (roots) may share one trace id (a root continuing the trace of
+        // a live one): the target's copies under both are told apart only by their root, so the
+        // counts are taken per trace id and nothing is demanded
+        let mut per_trace: HashMap<u128, (usize, usize)> = HashMap::new();
+        for ((trace, _), n) in &seen_traces {
+            let e = per_trace.entry(*trace).or_insert((0, 0));
+            e.0 += 1;
+            e.1 += *n;
+        }
         for ((trace, unit), ncopies) in seen_traces {
+            let (units_here, copies_here) = per_trace[&trace];
+            let shared_trace_id = units_here > 1;
+            let ncopies = if shared_trace_id { copies_here } else { ncopies };
             let here: Vec<&&Loc> = locs.iter().filter(|l| l.rec.trace_id.0 == trace && l.rec.name.as_ref() == tname).collect();
             let target_delivered = ix
                 .by_name
@@ -798,7 +810,14 @@ fn c06_impl(ix: &Index, only: Option<&dyn Fn(&MAtt) -> bool>) -> Vec<Viol> {
             };
             let cancelled = ix.root_cancelled(unit);
             let default_cancel = !h.cancelable && !root.cancel_t.is_empty();
-            let must = before_root && scope_before && target_delivered == ncopies && !cancelled && a.t.1 < target_fin.0.max(a.t.1 + 1) && !h.overflow_atts.contains(&ai);
+            let must = before_root && scope_before && target_delivered == ncopies && !cancelled && a.t.1 < target_fin.0.max(a.t.1 + 1) && !h.overflow_atts.contains(&ai) && !shared_trace_id;
+            if shared_trace_id && a.route != Route::Creation {
+                // copies under two roots of one trace id: only "never more than once per copy"
+                if here.len() > nkeys * ncopies {
+                    out.push(v("C06", "attachment-duplicated", format!("{} attached once to {:?} was delivered {} times in trace {:#x} ({} copies)", what, tname, here.len(), trace, ncopies)));
+                }
+                continue;
+            }
             if ncopies > 1 && a.route != Route::Creation {
                 // known-finding shape: several copies of the target inside one collection unit
                 let total = here.len();
